@@ -24,7 +24,7 @@ CHECKS = {
     },
     "C11": {
         "text": "Coq theorems over the reference map for all states and clock windows: after the expiry instant no value-reading call (get, CAS, update_ttl, range) returns the value; before it (or without expiry) the value is returned and no call other than a delete of that key removes it; recovery keeps every unexpired key; a TTL-only update keeps the value. Tie: the whole-sequence correspondence of C01 in TTL-on configurations with expiries placed before/after the wall clock, including flush+reopen; absolute expiry surviving restart bit for bit is C10's codec round trip plus the whole-file check.",
-        "note": TRUST + " Not decided here: the 1 ns clock boundary; sweeper interleavings (sampled only by the background sweeper not being started); crash points inside recovery and older-generation resurrection (C04 machinery, known finding F1).",
+        "note": TRUST + " Not decided here: the 1 ns clock boundary; the sweeper is exercised by execution (engine sweep, clock-margin oracle), not modelled; sweeper interleavings (sampled only by the background sweeper not being started); crash points inside recovery and older-generation resurrection (C04 machinery, known finding F1).",
         "design": "DESIGN.md section 5 C11",
     },
     "C12": {
@@ -38,8 +38,8 @@ CHECKS = {
         "design": "DESIGN.md section 5 C13",
     },
     "C14": {
-        "text": "Coq (sequential clause): for every sorted binding list, bounds and limit the query returns exactly the first `limit` live (present, unexpired) bindings inside the inclusive bounds in ascending byte order (skipped entries do not consume the limit; start > end and limit 0 give the empty list), each with the key's current value. Tie: range queries with empty/extreme/inverted bounds, prefixes and limits inside every C01 sequence in all configurations and tiers.",
-        "note": TRUST + " The concurrent clauses (stable key never missing under concurrent writers) are not decided by this check; SkipMap iteration is modelled as the sorted list.",
+        "text": "Coq (sequential clause): for every sorted binding list, bounds and limit the query returns exactly the first `limit` live (present, unexpired) bindings inside the inclusive bounds in ascending byte order (skipped entries do not consume the limit; start > end and limit 0 give the empty list), each with the key's current value. Tie: range queries with empty/extreme/inverted bounds, prefixes and limits inside every C01 sequence in all configurations and tiers, plus a stream with small limits over key sets holding expired entries. The concurrent clauses are decided by execution only: scanners at full speed against writers churning neighbouring keys, with an oracle (strictly ascending, every untouched key exactly once, no key deleted beforehand, genuine values, ordered = hashed index at quiescence).",
+        "note": TRUST + " The concurrent clauses have no theorem: crossbeam SkipMap iteration under concurrent mutation is not modelled; sequentially it is modelled as the sorted list.",
         "design": "DESIGN.md section 5 C14",
     },
     "C02": {
